@@ -186,6 +186,21 @@ def run(ctx):
                                       d.get("real"), d.get("evaluator")), d)
     except Exception as ex:
         ctx.correspondence_broken("compiletie5-crashed", repr(ex)[:500])
+    # level 4 (engine compile4 = Src/Compile4.v + VM/ValueVM4.v): F5 + nested functions and closures — sibling
+    # runs (ALLOC / REWRITE), function expressions, captured parameters / let / var at any depth (ID_GLOBAL),
+    # function values stored / passed / returned / called after the definer returned, shared counters,
+    # recursive nested functions (COPYGLOB), the breadth-first order of nested bodies
+    try:
+        from checks.parts import compiletie
+        ct4 = compiletie.run_compiletie(ctx, 600 if ctx.tier == "quick" else 5000, ctx.seed, level=4)
+        if ct4:
+            for d in ct4["run_diffs"][:3]:
+                if d.get("valuevm") is not None and d.get("valuevm") == d.get("evaluator"):
+                    ctx.violation("compiletie4:real-differs-from-evaluator:case%s" % d.get("case"),
+                                  "F4 program: the real VM gives %s, the evaluator (and the value-level VM model) %s" % (
+                                      d.get("real"), d.get("evaluator")), d)
+    except Exception as ex:
+        ctx.correspondence_broken("compiletie4-crashed", repr(ex)[:500])
     ctx.assumptions.extend(NOT_MODELLED)
     ctx.coverage["disagreeing_cases"] = len(r["c02"])
     ctx.coverage["corpus_programs"] = ncorpus
